@@ -17,6 +17,7 @@ mod engine_a;
 mod engine_b;
 mod engine_c;
 mod engine_d;
+mod engine_e;
 mod sched;
 mod sysseam;
 mod inflate;
@@ -147,6 +148,36 @@ fn cmd_check(args: &[String]) -> i32 {
             break;
         }
     }
+    // Engine E (miri-sim): first pass only (it builds http-serve itself, under Miri).
+    let mut miri_violation: Option<engine_e::MiriFound> = None;
+    let mut miri_notes: Vec<String> = Vec::new();
+    if violation.is_none() && std::env::var("VERIF_EVIDENCE_SUFFIX").is_err() && runs_override.is_none() {
+        for mp in engine_e::parts_for(check.prop) {
+            let rep = match engine_e::run(check.prop, &mp, thorough, seed, &mut total) {
+                Ok(r) => r,
+                Err(e) => {
+                    eprintln!("HARNESS-ERROR: {e}");
+                    return 2;
+                }
+            };
+            if let Some(why) = &rep.skipped {
+                println!("WARNING: miri-sim part skipped: {why}");
+                miri_notes.push(format!("miri-sim part ({}) skipped in this run: {why}", mp.scenario));
+                continue;
+            }
+            println!("part miri engine=miri-sim scenario={} runs={} wall={:.1}s ({})", mp.scenario, rep.runs, rep.wall_s, mp.what);
+            parts_json.push(json!({
+                "engine": "miri-sim", "what": mp.what, "scenario": mp.scenario, "runs": rep.runs, "wall_s": rep.wall_s,
+                "runs_per_hour": if rep.wall_s > 0.0 { (rep.runs as f64 / rep.wall_s * 3600.0) as u64 } else { 0 },
+                "sample_workloads": rep.samples, "failures_that_are_not_this_propertys_clause": rep.ignored_failures,
+            }));
+            total_runs += rep.runs;
+            if let Some(f) = rep.found {
+                miri_violation = Some(f);
+                break;
+            }
+        }
+    }
     let wall = t0.elapsed().as_secs_f64();
     for (id, n) in &total.known_hits {
         let known = KNOWN.get_or_init(|| std::sync::Arc::new(load_known())).clone();
@@ -156,7 +187,7 @@ fn cmd_check(args: &[String]) -> i32 {
             known_hits.push(line);
         }
     }
-    let nviol = violation.is_some() as i64;
+    let nviol = (violation.is_some() || miri_violation.is_some()) as i64;
     let counters: serde_json::Map<String, Value> = total.counters.iter().map(|(k, v)| (k.to_string(), json!(v))).collect();
     let faults: serde_json::Map<String, Value> = total.counters.iter().filter(|(k, _)| k.starts_with("fault_")).map(|(k, v)| (k.to_string(), json!(v))).collect();
     let zero_probes: Vec<&str> = checks::probes(check.prop).into_iter().filter(|p| total.counters.get(p).copied().unwrap_or(0) == 0).collect();
@@ -185,6 +216,7 @@ fn cmd_check(args: &[String]) -> i32 {
             assumptions.push(format!("source scan found shared state outside the instrumented mutex: {hits:?}; it is interleaved only at lock/wake scheduling points"));
         }
     }
+    assumptions.extend(miri_notes);
     assumptions.extend(checks::common_assumptions());
     let samples: Vec<Value> = total.samples.iter().map(|s| s.1.clone()).collect();
     let ev = json!({
@@ -226,6 +258,11 @@ fn cmd_check(args: &[String]) -> i32 {
         eprintln!("HARNESS-ERROR: cannot write evidence: {e}");
         return 2;
     }
+    if let Some(f) = miri_violation {
+        println!("violation: [{} / {}] {}", f.prop, f.oracle, f.msg);
+        println!("VIOLATION property={} replay={}", check.prop, f.path);
+        return 1;
+    }
     match violation {
         Some((f, path)) => {
             println!("violation: [{} / {}] {}", f.violation.prop, f.violation.oracle, f.violation.msg);
@@ -258,6 +295,9 @@ fn cmd_replay(args: &[String]) -> i32 {
         return 2;
     };
     let ename = v["engine"].as_str().unwrap_or("");
+    if ename == "miri-sim" {
+        return engine_e::replay(&v, path);
+    }
     let mode = v["mode"].as_u64().unwrap_or(0) as u32;
     let Some(part) = check.parts.iter().find(|p| p.engine.name == ename && p.mode == mode) else {
         eprintln!("replay: engine {ename} mode {mode} is not part of {focus}");
